@@ -1127,6 +1127,79 @@ fn small_block(rng: &mut Rng) -> BlockKnob {
     BlockKnob { init, max: usize::MAX, strat }
 }
 
+/// the reduced alphabet of the bounded-exhaustive corner: one operation per table / stack
+fn exhaustive_alphabet() -> Vec<Op> {
+    vec![
+        Op::PushInstruction(1, None),
+        Op::PushJump(7),
+        Op::ParseSymbol("sx".into()),
+        Op::AddInt(41),
+        Op::ParseText("ab".into()),
+        Op::MakeList(vec![0, 1], true),
+        Op::PushRegister(0),
+        Op::PushValue(0),
+        Op::PushFrame(3),
+        Op::PushCustom,
+        Op::PushExprSymbol(77, 1),
+    ]
+}
+
+/// initial sizes 0, 1, 2 x every growth policy that can make progress, the same on all six blocks
+fn exhaustive_configs() -> Vec<Knobs> {
+    let mut configs = vec![];
+    for init in [0usize, 1, 2] {
+        for strat in [Strat::Fixed(1), Strat::Fixed(2), Strat::Mult(2)] {
+            if matches!(strat, Strat::Mult(_)) && init == 0 {
+                continue;
+            }
+            let b = BlockKnob { init, max: usize::MAX, strat };
+            configs.push(Knobs { instr: b, jump: b, symtab: b, exprsym: b, data: b, custom: b });
+        }
+    }
+    configs
+}
+
+/// number of (history, setting) pairs of the corner at one history length
+pub fn exhaustive_count(len: usize) -> u64 {
+    (exhaustive_alphabet().len() as u64).pow(len as u32) * exhaustive_configs().len() as u64
+}
+
+/// the `slot`-th (history, setting) pair of length `len`: slot = code * #settings + setting
+fn exhaustive_scenario(len: usize, slot: u64) -> Sc15 {
+    let alphabet = exhaustive_alphabet();
+    let configs = exhaustive_configs();
+    let n = alphabet.len() as u64;
+    let nc = configs.len() as u64;
+    let mut c = slot / nc;
+    let knobs = configs[(slot % nc) as usize];
+    let mut ops = vec![];
+    for _ in 0..len {
+        ops.push(alphabet[(c % n) as usize].clone());
+        c /= n;
+    }
+    // symbols must be distinct names to be distinct table entries
+    let mut k = 0;
+    for op in ops.iter_mut() {
+        if let Op::ParseSymbol(s) = op {
+            *s = format!("sx{}", k);
+            k += 1;
+        }
+        if let Op::PushExprSymbol(sym, _) = op {
+            *sym += k as u64;
+            k += 1;
+        }
+    }
+    Sc15 { basic: true, knobs, ops, check_every: true }
+}
+
+/// run indices 0..exhaustive_indices(tier) of the generated part are the corner at length 5 (and 6 in the thorough tier)
+fn exhaustive_indices(tier: Tier) -> u64 {
+    match tier {
+        Tier::Quick => exhaustive_count(5),
+        Tier::Thorough => exhaustive_count(5) + exhaustive_count(6),
+    }
+}
+
 impl Campaign for C15 {
     type Scenario = Sc15;
     fn prop(&self) -> &'static str {
@@ -1137,12 +1210,18 @@ impl Campaign for C15 {
     }
     fn runs(&self, tier: Tier) -> u64 {
         match tier {
-            Tier::Quick => 150_000,
-            Tier::Thorough => 15_000_000,
+            Tier::Quick => 150_000 + exhaustive_indices(tier),
+            Tier::Thorough => 15_000_000 + exhaustive_indices(tier),
         }
     }
 
-    fn generate(&self, rng: &mut Rng, _tier: Tier, _index: u64) -> Sc15 {
+    fn generate(&self, rng: &mut Rng, tier: Tier, index: u64) -> Sc15 {
+        // the first indices continue the bounded-exhaustive corner beyond the explicit scenarios: length 5, then
+        // (thorough tier) length 6; they do not draw from the PRNG
+        if index < exhaustive_indices(tier) {
+            let n5 = exhaustive_count(5);
+            return if index < n5 { exhaustive_scenario(5, index) } else { exhaustive_scenario(6, index - n5) };
+        }
         let basic = rng.chance(3, 4);
         let mut knobs = Knobs::default();
         if basic && rng.chance(3, 4) {
@@ -1232,56 +1311,12 @@ impl Campaign for C15 {
         // the bounded-exhaustive corner the property names: every sequence of up to 4 operations over a
         // reduced alphabet (one operation per table / stack), for initial sizes 0, 1, 2 and every growth
         // policy that can make progress (additive 1 or 2; multiplicative 2 from a non-zero size), the same
-        // setting on all six blocks; full read-back after every operation
-        let alphabet: Vec<Op> = vec![
-            Op::PushInstruction(1, None),
-            Op::PushJump(7),
-            Op::ParseSymbol("sx".into()),
-            Op::AddInt(41),
-            Op::ParseText("ab".into()),
-            Op::MakeList(vec![0, 1], true),
-            Op::PushRegister(0),
-            Op::PushValue(0),
-            Op::PushFrame(3),
-            Op::PushCustom,
-            Op::PushExprSymbol(77, 1),
-        ];
-        let mut configs = vec![];
-        for init in [0usize, 1, 2] {
-            for strat in [Strat::Fixed(1), Strat::Fixed(2), Strat::Mult(2)] {
-                if matches!(strat, Strat::Mult(_)) && init == 0 {
-                    continue;
-                }
-                let b = BlockKnob { init, max: usize::MAX, strat };
-                configs.push(Knobs { instr: b, jump: b, symtab: b, exprsym: b, data: b, custom: b });
-            }
-        }
-        let n = alphabet.len();
+        // setting on all six blocks; full read-back after every operation. (Lengths 5 and, in the thorough
+        // tier, 6 are swept through the generated run indices: see `generate`.)
         let mut out = vec![];
         for len in 1..=4usize {
-            let total = n.pow(len as u32);
-            for code in 0..total {
-                let mut c = code;
-                let mut ops = vec![];
-                for _ in 0..len {
-                    ops.push(alphabet[c % n].clone());
-                    c /= n;
-                }
-                // symbols must be distinct names to be distinct table entries
-                let mut k = 0;
-                for op in ops.iter_mut() {
-                    if let Op::ParseSymbol(s) = op {
-                        *s = format!("sx{}", k);
-                        k += 1;
-                    }
-                    if let Op::PushExprSymbol(sym, _) = op {
-                        *sym += k as u64;
-                        k += 1;
-                    }
-                }
-                for knobs in &configs {
-                    out.push(Sc15 { basic: true, knobs: *knobs, ops: ops.clone(), check_every: true });
-                }
+            for slot in 0..exhaustive_count(len) {
+                out.push(exhaustive_scenario(len, slot));
             }
         }
         out
